@@ -252,7 +252,7 @@ func TestVerif_C05(t *testing.T) {
 			"F(h=aaaaaaaa)", "S(h=aaaaaaaa)",
 			"End", "Peer(0)", "Peer(70)", "Peer(4096)")
 		if !c.Quick() {
-			ops = append(ops, c01Ops("F(=)", "S(=)", "S(accept-charset=u)", "Peer(33)", "Limit(0)", "Limit(4096)")...)
+			ops = append(ops, c01Ops("F(=)", "S(=)", "S(accept-charset=u)", "Peer(33)")...)
 		}
 		var labels []string
 		for _, o := range ops {
@@ -260,7 +260,7 @@ func TestVerif_C05(t *testing.T) {
 		}
 		depth := 1 << 20 // until the reachable state space is closed
 		c.Rule(fmt.Sprintf("breadth-first search to closure (depth bound %d) over every sequence of operations {%s} on one real Encoder + one real Decoder + an RFC 7541 reference decoder, states deduplicated on (encoder/decoder/reference tables and sizes, pending size update, set of pairs written non-sensitive, open-block flags). Each WriteField output is parsed by the reference decoder and fed to Decoder.Write immediately. On every sensitive write: the representation is a never-indexed literal (0001xxxx) carrying the pair, the encoder table is unchanged, the decoder emits it once with Sensitive set and its table is unchanged; after every write: every entry of the encoder, decoder and reference tables is a pair that was written non-sensitive at least once, and every indexed representation resolves to such a pair. non-trivial = an applied and compared transition; distinct = distinct (situation, bytes, table) of sensitive writes", depth, strings.Join(labels, " ")))
-		c.Assume("Table-size changes happen between header blocks only; sizes {0,70,4096} (thorough adds 33 and encoder-local limits 0/4096); 5 name/value pairs (static full match, static name match, two pairs sharing a name, a Huffman-coded value; thorough adds the empty pair).")
+		c.Assume("Table-size changes happen between header blocks only; sizes {0,70,4096} (thorough adds 33; encoder-local SetMaxDynamicTableSizeLimit is exercised by C01 only); 5 name/value pairs (static full match, static name match, two pairs sharing a name, a Huffman-coded value; thorough adds the empty pair).")
 		c.Assume("Round-trip fidelity of non-sensitive fields is C01's subject and is not judged here.")
 		vx.Seq(c, vx.SeqSpec[*c01State, c01Op]{
 			Part:    "seq",
